@@ -16,7 +16,7 @@ files = sys.argv[1:] or sorted(glob.glob("/tmp/sx/eval*_*.json"), key=os.path.ge
 matrix = {}
 for f in files:
     base = os.path.basename(f)
-    m = re.match(r"eval(\d*)_(S-)?(C\d\d)(?:[-_]([abc]))?\.json", base)
+    m = re.match(r"eval(\d*)_(S-)?(C\d\d)(?:[-_]([abcd]))?\.json", base)
     if not m:
         continue
     rnd, _, pid, wave = m.groups()
